@@ -45,7 +45,8 @@ type Req struct {
 
 // Case is a request history against one wrapped handler.
 type Case struct {
-	SessionMgr string `json:"session_mgr"` // none | memory | failnew | failget
+	SessionMgr string `json:"session_mgr"`           // none | memory | failnew | failget | failget-stale (Get returns the record together with an error)
+	OneHandler bool   `json:"one_handler,omitempty"` // one handler (the first request's settings) serves the whole history, as a real service does
 	Reqs       []Req  `json:"reqs"`
 }
 
@@ -158,6 +159,7 @@ type memSM struct {
 	n        int
 	failNew  bool
 	failGet  bool
+	stale    bool // Get finds the record but reports an error with it (expired / revoked / backend trouble)
 	lastCook string
 }
 
@@ -176,7 +178,7 @@ func (s *memSM) New(w http.ResponseWriter, r *http.Request, k string, v []byte) 
 }
 
 func (s *memSM) Get(r *http.Request, k string) ([]byte, error) {
-	if s.failGet {
+	if s.failGet && !s.stale {
 		return nil, errors.New("session store unavailable")
 	}
 	c, err := r.Cookie("sid")
@@ -193,6 +195,9 @@ func (s *memSM) Get(r *http.Request, k string) ([]byte, error) {
 	v, ok := s.store[c.Value+"|"+k]
 	if !ok {
 		return nil, errors.New("no such session")
+	}
+	if s.stale {
+		return v, errors.New("session has ended")
 	}
 	return v, nil
 }
@@ -213,6 +218,11 @@ func Eval(c Case) evid.Verdict {
 		}
 		// one keytab world per history: all requests share the first request's seed/etype/service
 		w0 := c.Reqs[0].AP
+		wide := false // the keytab is shared: if any request needs the kvno-65539 key, the keytab holds it for all of them
+		for _, q := range c.Reqs {
+			wide = wide || q.AP.KtWide
+		}
+		w0.KtWide = wide
 		kt := keytab.New()
 		{
 			m, err := w0.Mint(c01.SamplePAC())
@@ -225,7 +235,8 @@ func Eval(c Case) evid.Verdict {
 		}
 		var sm *memSM
 		if c.SessionMgr != "none" {
-			sm = &memSM{store: map[string][]byte{}, failNew: c.SessionMgr == "failnew", failGet: c.SessionMgr == "failget"}
+			sm = &memSM{store: map[string][]byte{}, failNew: c.SessionMgr == "failnew", failGet: c.SessionMgr == "failget" || c.SessionMgr == "failget-stale",
+				stale: c.SessionMgr == "failget-stale"}
 		}
 		var got served
 		inner := http.HandlerFunc(func(w http.ResponseWriter, r *http.Request) {
@@ -241,8 +252,13 @@ func Eval(c Case) evid.Verdict {
 			auth string
 			tok  []byte
 		}
+		var shared http.Handler
+		var reuse spnego.SPNEGOToken // one token variable decoded into again and again (API level)
 		for qi, q := range c.Reqs {
-			q.AP.Seed, q.AP.EType, q.AP.Svc = w0.Seed, w0.EType, w0.Svc
+			q.AP.Seed, q.AP.EType, q.AP.Svc, q.AP.KtWide = w0.Seed, w0.EType, w0.Svc, wide
+			if c.OneHandler {
+				q.AP.SkewSec, q.AP.RequireAddr, q.AP.KtPrinc, q.AP.DecodePAC = w0.SkewSec, w0.RequireAddr, w0.KtPrinc, w0.DecodePAC
+			}
 			opts := []func(*service.Settings){service.Logger(log.New(io.Discard, "", 0)), service.DecodePAC(q.AP.DecodePAC)}
 			if q.AP.SkewSec != 0 {
 				opts = append(opts, service.MaxClockSkew(time.Duration(q.AP.SkewSec)*time.Second))
@@ -260,6 +276,12 @@ func Eval(c Case) evid.Verdict {
 				opts = append(opts, service.SessionManager(sm))
 			}
 			h := spnego.SPNEGOKRB5Authenticate(inner, kt, opts...)
+			if c.OneHandler {
+				if shared == nil {
+					shared = h
+				}
+				h = shared
+			}
 			req := httptest.NewRequest("GET", "http://svc.example.com/", nil)
 			req.RemoteAddr = "pipe" // unparsable: no client address configured
 			if q.AP.ClientAddr == "V6" {
@@ -388,8 +410,14 @@ func Eval(c Case) evid.Verdict {
 			}
 			// API level: a freshly minted copy of the same token through AcceptSecContext
 			if q.Header == "token" {
-				if v := apiLevel(q, kt, opts, exp); !v.OK {
+				if v := apiLevel(q, kt, opts, exp, nil); !v.OK {
 					v.Msg += "; " + ctx
+					return v
+				}
+				// the same, decoding into a token variable that has been used for the earlier requests of the history
+				if v := apiLevel(q, kt, opts, exp, &reuse); !v.OK {
+					v.Sig = "reused-token-variable:" + v.Sig
+					v.Msg += " (the SPNEGOToken variable had been used for earlier tokens); " + ctx
 					return v
 				}
 			}
@@ -419,7 +447,7 @@ func classify(q Req) string {
 }
 
 // apiLevel presents a freshly minted copy of the token to the token-verification API.
-func apiLevel(q Req, kt *keytab.Keytab, opts []func(*service.Settings), exp c01.Expectation) evid.Verdict {
+func apiLevel(q Req, kt *keytab.Keytab, opts []func(*service.Settings), exp c01.Expectation, into *spnego.SPNEGOToken) evid.Verdict {
 	tok, m, err := buildToken(q)
 	if err != nil {
 		return evid.Fail("harness", "token: %v", err)
@@ -427,10 +455,14 @@ func apiLevel(q Req, kt *keytab.Keytab, opts []func(*service.Settings), exp c01.
 	if q.AP.ClientAddr != "" {
 		opts = append(append([]func(*service.Settings){}, opts...), service.ClientAddress(hostAddr(q.AP.ClientAddr)))
 	}
-	var st spnego.SPNEGOToken
+	var fresh spnego.SPNEGOToken
+	st := &fresh
+	if into != nil {
+		st = into
+	}
 	if st.Unmarshal(tok) == nil {
 		s := spnego.SPNEGOService(kt, opts...)
-		ok, ctx, status := s.AcceptSecContext(&st)
+		ok, ctx, status := s.AcceptSecContext(st)
 		if ok {
 			if !(q.Inner == "apreq" && (exp.Accept || exp.Either)) {
 				return evid.Fail("api-ok-without-apreq:"+classify(q), "AcceptSecContext reported success (status %v) for a token that contains no accepted AP-REQ", status)
@@ -490,6 +522,15 @@ func drawAP(t *rapid.T, seed uint64, et int32) c01.Case {
 	return c
 }
 
+// drawAPUnder builds a request that is valid under the given settings and then applies the named defects.
+func drawAPUnder(t *rapid.T, seed uint64, et int32, skew int, requireAddr bool, clientAddr, ktPrinc string, decodePAC bool, defects []string) c01.Case {
+	c := c01.Base(et, seed, "HTTP/svc.example.com")
+	c.ApplySettings(skew, requireAddr, clientAddr, ktPrinc, decodePAC)
+	c.Apply(defects...)
+	c.Replay = false
+	return c
+}
+
 func drawReq(t *rapid.T, seed uint64, et int32, allowCookie bool) Req {
 	q := Req{Header: rapid.SampledFrom([]string{"token", "token", "token", "token", "token", "token", "none", "basic", "neg-empty", "neg-empty2", "neg-notb64", "neg-random"}).Draw(t, "header")}
 	q.AP = drawAP(t, seed, et)
@@ -518,6 +559,9 @@ func drawReq(t *rapid.T, seed uint64, et int32, allowCookie bool) Req {
 func count(r *evid.Run, c Case, mode string) {
 	nt := ""
 	labels := []string{"mode:" + mode, "session_mgr:" + c.SessionMgr}
+	if c.OneHandler {
+		labels = append(labels, "one-handler-for-the-history")
+	}
 	for i, q := range c.Reqs {
 		if q.Header == "token" && (q.Mut == "" || strings.HasPrefix(q.Mut, "sub")) || (i > 0 && q.Cookie != "") {
 			nt = fmt.Sprintf("%v", c)
@@ -572,13 +616,22 @@ func TestProp(t *testing.T) {
 			t.Fatalf("violation")
 		}
 	})
-	r.Rule("history: sequences of 2-6 requests against one handler with session manager in {none, in-memory, failing New, failing Get}: token classes, a served token sent again octet for octet (never acceptable a second time), requests carrying the last session cookie or a forged one")
+	r.Rule("history: sequences of 2-6 requests against one handler with session manager in {none, in-memory, failing New, failing Get, Get returning the record together with an error}, served by one handler for the whole history or by a fresh handler per request, the token-verification API also driven through one re-used token variable: token classes, a served token sent again octet for octet (never acceptable a second time), requests carrying the last session cookie or a forged one")
 	r.Rapid("history", r.N(600, 6000), func(t *rapid.T) {
-		c := Case{SessionMgr: rapid.SampledFrom([]string{"none", "memory", "memory", "memory", "failnew", "failget"}).Draw(t, "sm")}
+		c := Case{SessionMgr: rapid.SampledFrom([]string{"none", "memory", "memory", "memory", "failnew", "failget", "failget-stale"}).Draw(t, "sm"),
+			OneHandler: rapid.Bool().Draw(t, "onehandler")}
 		seed, et := rapid.Uint64().Draw(t, "seed"), rapid.SampledFrom(ref.ETypes).Draw(t, "etype")
 		n := rapid.IntRange(2, 6).Draw(t, "n")
 		for i := 0; i < n; i++ {
-			c.Reqs = append(c.Reqs, drawReq(t, seed, et, true))
+			q := drawReq(t, seed, et, true)
+			if c.OneHandler && i > 0 {
+				// the handler's settings are those of the first request: keep the later requests valid under them
+				// (their own defects apart); the peer address stays each request's own
+				f := c.Reqs[0].AP
+				keep := q.AP.Defects
+				q.AP = drawAPUnder(t, seed, et, f.SkewSec, f.RequireAddr, q.AP.ClientAddr, f.KtPrinc, f.DecodePAC, keep)
+			}
+			c.Reqs = append(c.Reqs, q)
 		}
 		count(r, c, "history")
 		r.Sample("history/"+c.SessionMgr, c)
